@@ -228,7 +228,7 @@ PROPS = {
                            'pending_sub_misses_renewal', 'failed_tx_changes_nothing', 'changes_need_owner_or_purchase',
                            'changes_need_root_owner_partial', 'changes_need_root_owner_reachable_partial', 'stale_sub_changed_by_previous_owner',
                            'send_pays_beneficiary_keeps_registry', 'purchase_needs_sale_or_expiry', 'purchase_pays_owner_at_least_price',
-                           'expired_purchase_pays_base', 'expiry_exact_create_partial', 'sub_created_with_parent_expiry',
+                           'expired_purchase_pays_base', 'sale_state_changes_need_owner_or_purchase', 'ownership_change_clears_sale', 'created_record_is_off_sale', 'expiry_exact_create_partial', 'sub_created_with_parent_expiry',
                            'expiry_exact_renew_partial', 'expiry_exact_purchase_on_sale_partial', 'expiry_exact_purchase_expired_partial',
                            'expiry_wraps_int64'],
         run=run_c20, replay=replay_olh('ons'), level='proof',
